@@ -1340,8 +1340,8 @@ class Collocator:
             return False
 
         try:
-            return np.allclose(lat, self.index.lat) \
-                   & np.allclose(lon, self.index.lon)
+            return np.array_equal(lat, self.index.lat) \
+                   & np.array_equal(lon, self.index.lon)
         except ValueError:
             # The shapes are different
             return False
